@@ -84,7 +84,7 @@ from ._nocasedict import NocaseDict
 from ._cim_obj import CIMInstance, CIMInstanceName, CIMClass, CIMClassName, \
     CIMProperty, CIMMethod, CIMParameter, CIMQualifier, \
     CIMQualifierDeclaration
-from ._cim_types import CIMDateTime, type_from_name
+from ._cim_types import CIMDateTime, Char16, type_from_name
 from ._tupletree import xml_to_tupletree_sax
 from ._exceptions import CIMXMLParseError, CIMVersionError, DTDVersionError, \
     ProtocolVersionError
@@ -2585,4 +2585,4 @@ class TupleParser:
                         "UCS-2 range: {0!A}", data),
                 conn_id=self.conn_id)
 
-        return data
+        return Char16(data)
